@@ -97,6 +97,12 @@ class HBatch(BatchBase):
     def _flush(self):
         T = self.T
         T.ev.append({"EvFlush": [self.kind, self.index, [list(it.cid) for it in self.items]]})
+        nested = T.kinds.get(str(self.kind), {}).get("nested")
+        if nested is not None and not getattr(self, "_nested_done", False):
+            # a flush body that itself makes a synchronous call of an @asynq function which blocks on an item of
+            # another batch kind (re-entrant scheduler run during a flush); once per batch
+            self._nested_done = True
+            T.nested_call(nested)
         ra = T.kinds.get(str(self.kind), {}).get("raise")
         i = 0
         for it in list(self.items):
@@ -359,6 +365,21 @@ class Tr:
         self._post(_id, _k[0], y, None, e)
         self.ev.append({"EvStep": [list(_id), _k[0], {"Err": [eid(e)]}]})
         _k[0] += 1
+
+    def nested_call(self, spec):
+        kind2, key, act = spec
+        T = self
+
+        @asynq_deco()
+        def hook(_id):
+            v = yield T.new_item(kind2, key, act, _id, None)
+            return v
+        cid = self._alloc((), None)
+        self.aux({"AuxNested": [list(cid), kind2]})
+        try:
+            hook(cid)
+        except Exception as e:      # the nested computation's failure stays inside the flush body
+            self.aux({"AuxNestedErr": [list(cid), eid(e)]})
 
     def pre_sync(self, _id, h):
         ent = self.objs.get(id(h))
